@@ -14,7 +14,8 @@ let arr_of_arg = function A (s, d) -> Arr (s, d) | _ -> failwith "expected array
 (* what the driver builds for an ndarray kind: rsh = view::reshape(flat, shape) is a maybe<view> *)
 let arr_kind k a = match k with
   | "rsh" -> MSome (arr_of_arg a)
-  | "dyn" | "ref" | "fix" -> arr_of_arg a
+  | "dyn" | "ref" | "fix" | "col" | "cref" -> arr_of_arg a   (* col / cref: column-major buffer, same LOGICAL content
+                                                               (Compare.isequal_arrL_logical: only the logical elements matter) *)
   | _ -> failwith ("array kind " ^ k)
 let maybe_of = function N -> MNone | a -> MSome (arr_of_arg a)
 let either_of = function I z -> ERight (Num z) | a -> ELeft (arr_of_arg a)
@@ -79,4 +80,8 @@ let cl_handler form args =
 
 let () =
   List.iter (fun f -> register ("eq_" ^ f) (eq_handler f); register ("cl_" ^ f) (cl_handler f))
-    ["nn"; "ii"; "dii"; "aa"; "ia"; "ai"; "mm"; "ma"; "am"; "ee"; "ea"; "ae"; "en"; "ne"; "tt"; "tm"; "mt"]
+    ["nn"; "ii"; "dii"; "aa"; "ia"; "ai"; "mm"; "ma"; "am"; "ee"; "ea"; "ae"; "en"; "ne"; "tt"; "tm"; "mt"];
+  (* layout suffixes: the operands' arrays are row-/column-major objects with the same logical content *)
+  List.iter (fun f -> List.iter (fun l ->
+      register ("eq_" ^ f ^ "." ^ l) (eq_handler f); register ("cl_" ^ f ^ "." ^ l) (cl_handler f)) ["rr"; "rc"; "cr"; "cc"])
+    ["ia"; "ai"; "mm"; "ma"; "am"; "ee"; "ea"; "ae"; "en"; "ne"; "tt"; "tm"; "mt"]
